@@ -39,6 +39,15 @@ CHECKS = {
  "C15": ("exploration", "mapping tables are generated as ordered definition lists with deliberate overlaps/adjacencies and rendered as CMaps with randomised sectioning, range splitting and white-space; decode_text over the mapped codes must equal the 'last definition wins' reference model",
          "trusted: the reference table model and the CMap renderer (Adobe template envelope)",
          "model-based property testing (proptest): reference mapping table vs get_font_encoding + decode_text"),
+ "C16": ("exploration", "exhaustive sweep of all 1 112 064 Unicode scalar values (alone and embedded) through text_string/decode_text_string and the explicit UTF-8/UTF-16 encoders, random strings, malformed strings; exhaustive sweep of the 1280 cells of the five one-byte encodings against reference tables derived from Python codecs; generated extraction documents round-tripped through save/load",
+         "trusted: reference tables vendored from Python's cp1252/mac_roman/latin_1 codecs; the stated reading of the encoding-choice clause (DESIGN.md C16)",
+         "exhaustive enumeration of finite spaces plus property-based testing (proptest), round-trip and table oracles"),
+ "C17": ("exploration", "generated bookmark forests (any depth/fan-out, children attached in any order, Unicode titles, zero-page parents) are turned into outlines; object-level link invariants are checked against the forest and get_toc() must equal the forest's preorder, in memory and after save/load",
+         "trusted: the harness's forest model incl. its reading of adjust_zero_pages (first descendant with a page)",
+         "model-based property testing (proptest): structural invariants + read-back oracle"),
+ "C18": ("exploration", "generated (instant, offset) pairs plus all 2879 offsets at fixed instants; an own civil-time formatter is the oracle for every back-end's output, and every back-end must parse all four spec forms to the reference instant/offset; chrono::Local is exercised in child processes with TZ set per offset",
+         "trusted: REF-TIME (own proleptic Gregorian conversion)",
+         "property-based testing (proptest) and exhaustive offset enumeration against a reference formatter; cross-back-end differential"),
 }
 NA = {}
 def main():
